@@ -289,6 +289,17 @@ func NewPikeVMLazy(nfa *NFA) *PikeVM {
 	}
 }
 
+// Fork returns a new PikeVM for the same NFA with the same configuration
+// (skip-ahead prefilter, longest flag) and its own, lazily allocated, search state.
+// A PikeVM mutates its internal state during every search, so code that can be
+// entered from several goroutines must search on a private fork, never on a shared VM.
+func (p *PikeVM) Fork() *PikeVM {
+	f := NewPikeVMLazy(p.nfa)
+	f.skipAhead = p.skipAhead
+	f.internalState.Longest = p.internalState.Longest
+	return f
+}
+
 // ensureInternalState lazily initializes the internal PikeVMState if needed.
 // Called at the entry point of every search method that uses internalState.
 func (p *PikeVM) ensureInternalState() {
